@@ -5,7 +5,7 @@ _s = importlib.util.spec_from_file_location("worldgen", os.path.join(os.path.dir
 LEVEL = "proof"
 MODEL = "lean/Sentinel/World.lean (World.build, World.exit, Node.recordPass/recordBlock/recordComplete)"
 RULE = ("2-4 resources, inbound/outbound, batch 1..5, flow and isolation rules on some resources so that a fraction of entries is blocked, "
-        "time advances from {0,1,499,500,501,999,1000,1001,uniform} between calls, exits in any order; every op is followed by reads of the "
+        "time advances from {0,1,499,500,501,999,1000,1001,uniform 0..2500} and occasionally {~10 s, 59999..61500 ms, 125 s, 1 h} between calls (response times beyond one minute), exits in any order; every op is followed by reads of the "
         "resource node and of the global inbound node. Non-trivial: at least one blocked entry and one exit with positive response time; distinct = distinct op text.")
 NONTRIVIAL_TAGS = ["flow-block", "other-block"]
 ASSUMPTIONS = ["each passed entry is exited exactly once (the harness exits the rest at the end of the case)",
@@ -34,6 +34,9 @@ def gen_case(rng):
     open_ = []
     for _ in range(rng.randint(6, 40)):
         d = rng.choice([0, 0, 1, 3, 499, 500, 501, 999, 1000, 1001, rng.randint(0, 2500)])
+        if rng.random() < 0.06:
+            # long-lived entries: response times around and beyond one minute (the statistics' largest "minimum RT"), idle windows
+            d = rng.choice([9999, 10000, 10001, 59999, 60000, 60001, 61500, 125000, 3600000])
         if d:
             ops.append("adv ms=%d" % d)
         r = rng.choice(res)
